@@ -96,6 +96,35 @@ PROPS = {
         "assumptions": [LIBLZMA, "liblzma's LZMA_Alone decoder only supports lc+lp<=4; such .lzma files are judged by C01 only",
                         "no reference .lz encoder is available offline: the liblzma->ours direction is not covered for LZIP"],
     },
+    "C04": {
+        "level": "fault_enumeration",
+        "exhaustive": True,
+        "variants": {
+            "quick": [("rel", {})],
+            "thorough": [("rel", {"timeout": 4 * 3600})],
+        },
+        "floors": [],
+        "rule": "for each small base file (XZ with CRC32/CRC64/SHA-256, 1-3 blocks, with and without delta/BCJ filters; LZIP "
+                "with 1-4 members incl. empty ones): EVERY single-bit flip at every position (exhaustive), every byte set "
+                "to {0x00,0xFF,x+1}, every byte of every header/size/CRC/control/index/footer/trailer field set to "
+                "{0,1,0xFF,0x7F,0x80,x+1,x-1,neighbour} with and without CRC32 fix-up, deletion/duplication/insertion/"
+                "transposition of 1-100 byte regions at all structure boundaries +-1 and 200 random places, every truncation "
+                "length, 64 appended tails; plus batches of non-format strings (random, zeros, 0xFF, magic+garbage, the other "
+                "format, damaged magic, text, damaged LZIP header). Readers: XZReader single/multi, LZIPReader (all), "
+                "LZIPReaderMT (every 23rd corruption). Oracle: outcome must be Err, Ok(original) or, for LZIP only, "
+                "Ok(leading members) when the next member's magic is gone. Cell = format|reader|corruption class|field "
+                "class; non-trivial = at least one corruption of the cell was detected by an Err. exhaustive=true refers to "
+                "the bit-flip, byte-substitution, field and truncation sweeps of the listed base files only.",
+        "manifest": {
+            "text": "Fault enumeration: the complete single-bit, single-byte-substitution, per-field and truncation fault "
+                    "spaces of 6 (quick) / 30 (thorough) small valid files are swept against the real readers; region edits "
+                    "and non-format strings are sampled.",
+            "note": "Base files come from the crate's own writers (checked by C02/C03); outcomes of panicking or hanging "
+                    "readers are not wrong-data outcomes and are counted as not judged here (C06/C09 judge them).",
+            "technique": "runtime monitoring: exhaustive fault injection on small files + Err-or-exact oracle",
+        },
+        "assumptions": [WALKERS, "base files are valid (C02/C03)"],
+    },
 }
 
 
